@@ -86,6 +86,22 @@ def run_sim(ctx, lib, name, c, num, depth, obs, classes, invariants, jobs=8):
     return dict(accepted=acc, executions=ex, events=evs, behaviours=len(behs))
 
 
+def life_cycle(ctx, lib):
+    """Beyond the listed properties: the library life cycle (P11Life).  A rejection here is written to the evidence notes,
+    it is not a violation of a listed property."""
+    from vf import drv_life as L, walker
+    c = dict(Fns=tla_set(sorted(L.ARGC)), Unsupported=tla_set(L.UNSUPPORTED), NotParallel=tla_set(L.NOTPARALLEL))
+    res, g = pipeline.model_check(ctx, "P11Life", "life", c, invariants=["TypeOK"], dump=True)
+    walks, cov, tot = walker.edge_cover(g, maxlen=40, rng=random.Random(ctx.seed))
+    st = pipeline.replay_validate(ctx, "life", "vf.drv_life", [lib], walks, "Trace_Life", c, jobs=8)
+    for rj in st.rejected:
+        ctx.notes.append("P11Life (beyond the listed properties): trace rejected at %s" % rj["event"][:300])
+    ctx.coverage["beyond_listed_properties"] = dict(
+        module="P11Life", transitions=res.generated, replayed=cov, executions=st.executions, accepted=st.accepted,
+        what="C_Initialize argument rules, double initialise / finalise, all 65 entry points before C_Initialize and with a "
+             "missing session handle, the unsupported entry points")
+
+
 def c03(ctx):
     lib = build.libpath(build.build("ossl"))
     quick = ctx.tier == "quick"
@@ -117,7 +133,9 @@ def c03(ctx):
     ))
     ctx.assumptions += ["TLC explores the bounded model completely (2 tokens, handles <= MaxH)",
                         "PIN symbols are concretised as random byte strings per seed",
-                        "token flags (PIN count low) are not observed by this check"]
+                        "token flags (PIN count low) are not observed by this check (they are by C04 / C14 / C20)"]
+    if not ctx.violations:
+        life_cycle(ctx, lib)
 
 
 ALL_CLASSES = ["secret", "data", "cert", "pubkey", "privkey"]
